@@ -262,7 +262,7 @@ func displayName(key string) string {
 func (e *Engine) newExec(fn *ssa.Function, quiet bool) *FnExec {
 	fe := &FnExec{eng: e, script: &Script{}, regs: map[ssa.Value]Val{}, heapSort: map[string]string{}, quiet: quiet,
 		sentinel: map[*ssa.Global]int{}, globals: map[*ssa.Global]Val{}, tids: map[string]int{}, unknown: map[string]int{},
-		used: map[string]bool{}, abstracted: map[string]int{}, phiEdges: map[*ssa.BasicBlock][]phiEdge{}, ifaceType: map[Term]types.Type{}, owned: map[Term]bool{}, boxed: map[Term]Val{}, guardPtr: map[ssa.Value]*guardRec{}, guardedVals: map[Term]*guardRec{}, boxType: map[Term]types.Type{}, wraps: map[Term]Val{}, cbInfo: map[*ssa.Function]*cbState{}}
+		used: map[string]bool{}, abstracted: map[string]int{}, phiEdges: map[*ssa.BasicBlock][]phiEdge{}, ifaceType: map[Term]types.Type{}, owned: map[Term]bool{}, boxed: map[Term]Val{}, guardPtr: map[ssa.Value]*guardRec{}, elemCache: map[string]Val{}, guardedVals: map[Term]*guardRec{}, boxType: map[Term]types.Type{}, wraps: map[Term]Val{}, cbInfo: map[*ssa.Function]*cbState{}}
 	if fn.Pkg != nil {
 		fe.pkg = fn.Pkg.Pkg
 	} else if fn.Parent() != nil {
